@@ -180,7 +180,7 @@ class Gen:
 
     def comment(s, what="note"):
         s.ncomment += 1
-        body = s.r.choice(["doc", "describes it", "x := 1;", "TODO fix", "if (a) {"] + (["näme ünicode", "€uro 😀 ok"] if s.nonascii else []))
+        body = s.r.choice(["doc", "describes it", "x := 1;", "TODO fix", "if (a) {", "first a, then b, c", "f(x, y);"] + (["näme ünicode", "€uro 😀 ok"] if s.nonascii else []))
         return Tok("comment", "// %s %s %d" % (what, body, s.ncomment))
 
     # ---- declarations
